@@ -51,7 +51,7 @@ Inductive tv := TTrue | TFalse | TUnknown.
 
 (* an attempt whose generation is stale, on the path without errors and without debug logging *)
 Definition stale_guard (g : string) : tv :=
-  if String.eqb g "int(s.followc.Load()) != followc" then TTrue
+  if String.eqb g "int(s.followc.Load()) != followc" then TTrue   (* = gen_guard *)
   else if String.eqb g "err != nil" then TFalse
   else if String.eqb g "s.opts.ShowDebugMessages" then TFalse
   else if String.eqb g "for" then TTrue
@@ -74,18 +74,56 @@ Inductive sres :=
 | SEffect (stmt : string)   (* reaches (or may reach) a statement that touches the server *)
 | SFallsOff.
 
-Fixpoint stale_run (l : list gstmt) : sres :=
+Definition gen_guard : string := "int(s.followc.Load()) != followc".
+
+Fixpoint is_prefix (p l : list string) : bool :=
+  match p, l with
+  | [], _ => true
+  | x :: p', y :: l' => String.eqb x y && is_prefix p' l'
+  | _ :: _, [] => false
+  end.
+
+(* the conditions around a block whose innermost condition is the generation test *)
+Fixpoint ctx_of (gs : list string) : option (list string) :=
+  match gs with
+  | [] => None
+  | [g] => if String.eqb g gen_guard then Some [] else None
+  | g :: t => match ctx_of t with Some c => Some (g :: c) | None => None end
+  end.
+
+(* [dead]: blocks (given by their enclosing conditions) in which the stale attempt has returned
+   errNoLongerFollowing under the generation test: whether such a block is entered is unknown, but if it is, the
+   attempt ends there, so the statements of the block that follow are not reached by it *)
+Fixpoint stale_run_d (dead : list (list string)) (l : list gstmt) : sres :=
   match l with
   | [] => SFallsOff
   | (gs, t, effs) :: rest =>
+      if existsb (fun c => is_prefix c gs) dead then stale_run_d dead rest
+      else
       match guards_tv stale_guard gs with
-      | TFalse => stale_run rest
+      | TFalse => stale_run_d dead rest
       | TTrue =>
           if negb (harmless effs) then SEffect t
           else if is_return t then (if ends_with "errNoLongerFollowing" t then SEnds t else SReturns t)
-          else stale_run rest
-      | TUnknown => if harmless effs then stale_run rest else SEffect t
+          else stale_run_d dead rest
+      | TUnknown =>
+          if negb (harmless effs) then SEffect t
+          else if is_return t && ends_with "errNoLongerFollowing" t then
+                 match ctx_of gs with
+                 | Some c => stale_run_d (c :: dead) rest
+                 | None => stale_run_d dead rest
+                 end
+          else stale_run_d dead rest
       end
+  end.
+Definition stale_run (l : list gstmt) : sres := stale_run_d [] l.
+
+(* the statements after the first release of s.mu that is not part of a generation test *)
+Fixpoint after_plain_unlock (l : list gstmt) : list gstmt :=
+  match l with
+  | [] => []
+  | (gs, t, effs) :: rest =>
+      if mem_str "call s.mu.Unlock" effs && negb (mem_str gen_guard gs) then rest else after_plain_unlock rest
   end.
 
 Fixpoint after_call (c : string) (l : list gstmt) : list gstmt :=
@@ -103,20 +141,29 @@ Record gcfg := {
   c_check : bool;   (* ... in followCheckSome after s.mu is taken *)
   c_cmd : bool;     (* ... in followHandleCommand after s.mu is taken *)
   c_aofg : bool;    (* ... between followCheckSome's return and the first caught-up test after AOF *)
-  c_flagg : bool }. (* ... between followHandleCommand's return and the caught-up test of the read loop *)
+  c_flagg : bool }. (* ... between followHandleCommand's return and the write of faofsz, AND in the caught-up block
+                       of the read loop before flushAOF / setCaughtUp(true) *)
 
 Definition ends (r : sres) : bool := match r with SEnds _ => true | _ => false end.
+Definition no_effect (r : sres) : bool := match r with SEffect _ => false | _ => true end.
 
 Definition cfg_of (step check cmd : list gstmt) : gcfg :=
   {| c_top := ends (stale_run step);
      c_check := ends (stale_run check);
      c_cmd := ends (stale_run cmd);
      c_aofg := ends (stale_run (outside_loop (after_call "call s.followCheckSome" step)));
-     c_flagg := ends (stale_run (after_call "call s.followHandleCommand" step)) |}.
+     c_flagg := ends (stale_run (after_call "call s.followHandleCommand" step)) &&
+                no_effect (stale_run (after_plain_unlock (after_call "call s.followHandleCommand" step))) |}.
 
-(* the configuration the theorems of Props/C06gen.v are stated for: the source as it is
+(* the configuration the theorems of Props/C06gen.v are stated for: the source as it is - the working tree with
+   proposed_fixes/C06-stale-generation-flag.diff: all five places are guarded
    (Proofs/FollowGenProofs.v gen_guards_transcribed: cfg_of <generated lists> = proved_cfg) *)
 Definition proved_cfg : gcfg :=
+  {| c_top := true; c_check := true; c_cmd := true; c_aofg := true; c_flagg := true |}.
+
+(* the code before that repair: faofsz and the caught-up flag were written after the AOF reply and in the read loop
+   without a generation test (refuted: Props/C06gen.v c06g_stale_flag_pinned_refuted) *)
+Definition pinned_cfg : gcfg :=
   {| c_top := true; c_check := true; c_cmd := true; c_aofg := false; c_flagg := false |}.
 
 (* ---- followStartOver ---- *)
